@@ -54,7 +54,7 @@ SIG_IMPORT_CAPTURE = "a client module binds a name that the inlined code reads a
 SIG_NESTED_RETURN = "method:the body contains a nested function with a return statement"
 SIG_IMPORT_RENAMED = "method:the body imports a name without `as` and the guest names are renamed because of a conflict with the host scope"
 SIG_CLASSMETHOD_INSTANCE = "method:a classmethod is called through an instance"
-SIG_STAR_CALL = "method:a call site passes *args or **kwargs"
+SIG_STAR_CALL = "a call site passes *args or **kwargs"
 SIG_RETURN_NOT_LAST = "method:the body has a return that is not its last statement and a call site does not use the value"
 SIG_VDEP = "variable:an operand of the inlined right-hand side is reassigned between the definition and a read"
 SIG_VPREC = "variable:the right-hand side is a sum and a read sits in a product or after a minus sign"
@@ -702,6 +702,12 @@ def oracle(obj, res, removed_name=None):
     """independent check of the result; returns None or a description of the failure"""
     if res["before"][0] != 0:
         return None  # the generated program itself does not run: not a case (counted by the caller)
+    if star_site_processed(obj):
+        # /repo f0e7f38: a processed call site that passes *args or **kwargs cannot be mapped: RefactoringError
+        if res["refused"] is None:
+            return "a call site passing *args / **kwargs was not refused"
+        if res["refused"][0] != "RefactoringError":
+            return "a call site passing *args / **kwargs: %s instead of a RefactoringError" % res["refused"][0]
     if res["refused"] is not None:
         # refused (or crashed before/while performing): the project must be exactly as it was
         for fn, src in res["files"].items():
@@ -824,7 +830,7 @@ def method_case(obj, res):
                 return None, "to_be_inlined %r is not the list of header names %r" % (e["tbi"], hdr), info
             pb = None if (s["star"] or s["kwstar"]) else L.py_bind(d["params"], s["args"], s["kws"])
             gs.append("(mkSite (mkCall %s %s %s) %s %s %s)" % (
-                g_list([g_N(I(a)) for a in s["args"]]), L.g_pairs(I, s["kws"]), g_bool(s["star"]),
+                g_list([g_N(I(a)) for a in s["args"]]), L.g_pairs(I, s["kws"]), g_bool(s["star"] or s["kwstar"]),
                 L.g_pairs(I, hdr), L.g_state(I, e["after"]), g_opt(None if pb is None else L.g_pairs(I, pb))))
             info["nsites"] += 1
             info.setdefault("entries", []).append((e, hdr, s))
@@ -1007,6 +1013,22 @@ def classmethod_instance_shape(obj):
         return False
     return any(x["recv"].split(".")[-1] != "Store" for fn, src in obj["files"].items() if fn != obj["entry"]
                for x in obj_sites(obj, src))
+
+
+def star_site_processed(obj):
+    """some call site that the refactoring processes passes *args or **kwargs (inline parameter processes every
+    call; inline method with only_current only the aimed one)"""
+    if obj.get("kind") not in ("method", "parameter") or DEFMOD + ".py" not in obj["files"]:
+        return False
+    try:
+        per = {fn: obj_sites(obj, src) for fn, src in obj["files"].items() if fn != obj["entry"]}
+    except SyntaxError:
+        return False
+    if obj["kind"] == "method" and obj.get("only_current"):
+        off = obj["at"][1]
+        return any((x["star"] or x["kwstar"]) and x["offset"] <= off <= x["offset"] + len(x["text"])
+                   for x in per.get(obj["at"][0], []))
+    return any(x["star"] or x["kwstar"] for ss in per.values() for x in ss)
 
 
 def star_call_shape(obj):
@@ -1233,8 +1255,12 @@ def variable_signature(obj):
 
 
 # ============================================================================= parameter stream (oracle only)
-def gen_parameter(rng):
-    obj = gen_methodcall(rng) if rng.random() < 0.4 else gen_method(rng, rich=rng.random() < 0.3)
+def gen_parameter(rng, shape=None):
+    if shape:        # a call site passing *args / **kwargs: the default cannot be placed (recorded finding / refusal)
+        obj = gen_method(rng, shape=shape)
+        obj["shape"] = shape
+    else:
+        obj = gen_methodcall(rng) if rng.random() < 0.4 else gen_method(rng, rich=rng.random() < 0.3)
     src = obj["files"]["mod0.py"]
     d = L.find_def(src, fname(obj))
     with_default = [n for n, dv in d["params"] if dv is not None]
@@ -1261,6 +1287,8 @@ def signature(obj):
         return SIG_IMPORT_CAPTURE
     if kind == "variable":
         return variable_signature(obj) if obs.startswith("output changes") else None
+    if kind == "parameter":
+        return None
     if kind == "method":
         # (the shapes alias_shape / nochange_shape belong to defects fixed in /repo 45cf20a, 8da5e8e: they are not
         #  accepted as known any more; their replays are in corpus/C04)
@@ -1270,8 +1298,7 @@ def signature(obj):
             return SIG_NESTED_RETURN
         if classmethod_instance_shape(obj) and obs.startswith("output changes"):
             return SIG_CLASSMETHOD_INSTANCE
-        if star_call_shape(obj) and (obs.startswith("crash: AssertionError") or "NameError" in obs or obs.startswith("output changes")):
-            return SIG_STAR_CALL
+        # (call sites passing *args / **kwargs: fixed in /repo f0e7f38, they must be refused -- see oracle)
         if return_not_last_shape(obj) and (obs.startswith("output changes") or "does not parse" in obs or "exit status" in obs):
             return SIG_RETURN_NOT_LAST
         if obs.startswith("output changes") or "NameError" in obs or "UnboundLocalError" in obs:
@@ -1657,4 +1684,6 @@ def run(ctx):
             continue
         vobjs.append(gen_variable(rng, client=None if k < 0.75 else "plain" if k < 0.93 else "import-capture"))
     check_variables(ctx, vobjs)
-    check_parameters(ctx, [o for o in (gen_parameter(rng) for _ in range(np_)) if o is not None])
+    pobjs = [gen_parameter(rng) for _ in range(np_)]
+    pobjs += [gen_parameter(rng, shape=sh) for sh in ("star-call", "kwstar-call") for _ in range(ctx.scale(2, 10))]
+    check_parameters(ctx, [o for o in pobjs if o is not None])
